@@ -215,13 +215,14 @@ func merge(ms ...map[string]string) map[string]string {
 }
 
 var (
-	twoIds   = map[string]string{"AllInsts": "<- MCInsts", "Ids": "<- MCIds", "IdOfInst": "<- MCIdOf", "InstOrder": "<- MCOrder"}
-	oneInst  = map[string]string{"AllInsts": "<- MCInsts0", "IdOfInst": "<- MCIdOf0", "InstOrder": "<- MCOrder0"}
-	tws      = map[string]string{"MCProto": `"tws"`}
-	hsGws    = map[string]string{"PreAcked": "FALSE", "Alphabet": "<- AlphaGwsFull", "MCInitFn": "TRUE", "MCInitTimeout": "TRUE", "MCCancel": "TRUE", "BadStarts": "TRUE"}
-	hsTws    = map[string]string{"PreAcked": "FALSE", "Alphabet": "<- AlphaTwsFull", "MCInitFn": "TRUE", "MCInitTimeout": "TRUE", "MCCancel": "TRUE", "BadStarts": "TRUE", "MCProto": `"tws"`}
-	pinned   = map[string]string{"FixDup": "FALSE", "FixDel": "FALSE"}
-	detached = map[string]string{"MCDetached": "TRUE", "MCInitFn": "TRUE"}
+	twoIds    = map[string]string{"AllInsts": "<- MCInsts", "Ids": "<- MCIds", "IdOfInst": "<- MCIdOf", "InstOrder": "<- MCOrder"}
+	oneInst   = map[string]string{"AllInsts": "<- MCInsts0", "IdOfInst": "<- MCIdOf0", "InstOrder": "<- MCOrder0"}
+	tws       = map[string]string{"MCProto": `"tws"`}
+	hsGws     = map[string]string{"PreAcked": "FALSE", "Alphabet": "<- AlphaGwsFull", "MCInitFn": "TRUE", "MCInitTimeout": "TRUE", "MCCancel": "TRUE", "BadStarts": "TRUE"}
+	hsTws     = map[string]string{"PreAcked": "FALSE", "Alphabet": "<- AlphaTwsFull", "MCInitFn": "TRUE", "MCInitTimeout": "TRUE", "MCCancel": "TRUE", "BadStarts": "TRUE", "MCProto": `"tws"`}
+	pinned    = map[string]string{"FixDup": "FALSE", "FixDel": "FALSE"}
+	detached  = map[string]string{"MCDetached": "TRUE", "MCInitFn": "TRUE"}
+	lateStart = map[string]string{"Alphabet": "<- AlphaStart", "K": "0", "SrcKinds": "<- KindsEnd"}
 )
 
 func mcVariants() []mcVariant {
@@ -237,6 +238,12 @@ func mcVariants() []mcVariant {
 		{name: "handshake-tws", cfg: S, set: merge(hsTws, oneInst, map[string]string{"MaxMsgs": "3"})},
 		{name: "handshake-tws+L", cfg: L, liveness: true, thorough: true, set: merge(hsTws, oneInst, map[string]string{"MaxMsgs": "3"})},
 		{name: "detached-gws+L", cfg: L, liveness: true, set: merge(detached, map[string]string{"SrcKinds": "<- KindsEnd"})},
+		// a start buffered behind a refused duplicate start (8c78f49 closes but the run loop reads on):
+		// with FixLate (registration refused once `closed`) everything ends; without it - the tree as it is -
+		// TLC reproduces the OPEN finding start-after-close
+		{name: "late-start-detached+L", cfg: L, liveness: true, set: merge(detached, twoIds, lateStart)},
+		{name: "open-late-start-detached+L", cfg: L, liveness: true, expect: "Temporal property EndsAll was violated",
+			set: merge(detached, twoIds, lateStart, map[string]string{"FixLate": "FALSE", "INVARIANTS": "TypeOK Refines", "PROPERTIES": "EndsAll"})},
 		// the pinned tree: TLC must reproduce the known findings
 		{name: "pinned-dup-start", cfg: "MC_WsImpl_pinned.cfg", expect: "Invariant Refines is violated", set: map[string]string{}},
 		{name: "pinned-stop-not-cancelling", cfg: "MC_WsImpl_pinned.cfg", expect: "Invariant StopCancelsI is violated",
@@ -755,6 +762,14 @@ func specialScenarios(thorough bool) []*Scenario {
 				{Op: "send", M: "stop", ID: "2", Sync: true}}},
 			&Scenario{ID: "one-write-start-end-" + p, Mode: "special", Cfg: Cfg{Proto: p, InitFn: "detached"}, End: "abort", Steps: []Step{init,
 				{Op: "send2", M: "start", ID: "1", Inst: "1x1", Kind: "ok", Sync: true, Second: &Step{Op: "send", M: endMsg}}}},
+			// a start buffered behind a refused duplicate start (the open finding start-after-close; with a
+			// context that descends from the request context the late operation is cancelled when the handler returns)
+			&Scenario{ID: "dup-refused-buffered-start-detached-" + p, Mode: "special", Cfg: Cfg{Proto: p, InitFn: "detached"}, End: "abort", Steps: []Step{init,
+				start("1", "1x1"),
+				{Op: "send2", M: "start", ID: "1", Inst: "1x2", Kind: "ok", Sync: true, Second: &Step{Op: "send", M: "start", ID: "2", Inst: "2x1", Kind: "ok"}}}},
+			&Scenario{ID: "dup-refused-buffered-start-" + p, Mode: "special", Cfg: Cfg{Proto: p, InitFn: "accept"}, End: "abort", Steps: []Step{init,
+				start("1", "1x1"),
+				{Op: "send2", M: "start", ID: "1", Inst: "1x2", Kind: "ok", Sync: true, Second: &Step{Op: "send", M: "start", ID: "2", Inst: "2x1", Kind: "ok"}}}},
 			// a stopped operation is still winding down (40 ms) when the connection is ended
 			&Scenario{ID: "linger-stop-then-end-" + p, Mode: "special", Cfg: Cfg{Proto: p, InitFn: "accept", LingerMs: 40}, End: "abort", Steps: []Step{init,
 				start("1", "1x1"), start("2", "2x1"),
@@ -791,6 +806,9 @@ func specialScenarios(thorough bool) []*Scenario {
 }
 
 func slowRank(sc *Scenario) int {
+	if strings.HasPrefix(sc.ID, "dup-refused-buffered-start-detached") {
+		return 3 // the open finding: two absence waits
+	}
 	if len(sc.Steps) > 0 && sc.Steps[0].M == "initbad" {
 		return 3
 	}
@@ -1403,13 +1421,15 @@ func devKey(n string, has map[string]bool) (string, string) {
 		return "double-error-frame:subscription-error-then-panic", "a resolver that called AddSubscriptionError and then panicked: two error frames for one operation"
 	case "restart":
 		return "restart-race:stop-does-not-cancel-restarted-operation", "the id was started again right after its completion had been received; the finished operation's deferred delete(active, id) removed the NEW operation's registration, so stop(id) found nothing to cancel"
+	case "late-outlives":
+		return "start-after-close:operation-outlives-connection", "a start that was buffered behind a refused duplicate start was registered and executed AFTER close(4409) had cancelled the active operations: nothing cancels it, it is still executing after the connection ended"
 	case "silentinit":
 		return "init-bad-payload:no-close-no-closefunc", "connection_init with a non-object payload: no close frame, socket left open, CloseFunc never called"
 	}
 	return "deviation:" + n, "named deviation " + n
 }
 
-var absentDevs = map[string]bool{"dup-stop": true, "outlives": true, "restart": true, "silentinit": true}
+var absentDevs = map[string]bool{"dup-stop": true, "outlives": true, "restart": true, "silentinit": true, "late-outlives": true}
 
 // classify a trace that Ws rejects.  If one of the named deviations (all of them repaired in /repo by
 // now: the constants are FALSE in the registered configurations) explains it, the violation gets the
@@ -1418,7 +1438,7 @@ var absentDevs = map[string]bool{"dup-stop": true, "outlives": true, "restart": 
 func classify(c *vlib.Check, r rejection) (string, string) {
 	t := r.t
 	base := describe(t, r.lineNo) + fmt.Sprintf("\nWs rejects event %d: %s", r.lineNo, evStr(r.line))
-	all := map[string]string{"AllowDupStart": "TRUE", "AllowSilentInit": "TRUE", "AllowDoubleError": "TRUE", "AllowRestartRace": "TRUE"}
+	all := map[string]string{"AllowDupStart": "TRUE", "AllowSilentInit": "TRUE", "AllowDoubleError": "TRUE", "AllowRestartRace": "TRUE", "AllowLateStart": "TRUE"}
 	rej, devs, err := validate(c, "WsTraceDev.cfg", cfgEdit(all), []*tracedScenario{t}, vlib.Work("C11", "tv-dev", t.sc.ID), false)
 	if err != nil {
 		vlib.Infra("trace validation (deviation classification): %v", err)
